@@ -592,3 +592,150 @@ pub fn cleaner_main(env: &Env) -> i32 {
     println!("CLEANER-DONE dead={n} remaining_dead={dead} alive={alive}");
     0
 }
+
+// ------------------------------------------------------------------------------------------
+// C06, process leg: two processes create / open / open_or_create / drop ONE service; the tracer
+// pauses the first ("victim" in the tracer's vocabulary, although nobody is killed here) before
+// one of its visible system calls, lets the second ("peer") run one complete call, and resumes.
+
+/// settings knob that distinguishes the two parties' creations (variant 0 -> 2, variant 1 -> 3)
+pub fn knob(h: &Handle) -> usize {
+    match h {
+        Handle::PubSub(s) => s.static_config().max_publishers(),
+        Handle::Event(s) => s.static_config().max_notifiers(),
+        Handle::ReqRes(s) => s.static_config().max_clients(),
+        Handle::Blackboard(s) => s.static_config().max_readers(),
+    }
+}
+
+/// op: "create" | "open" | "ooc" (blackboard: "ooc" is not offered)
+pub fn service_op(node: &Node<Svc>, env: &Env, op: &str, variant: u8) -> Result<Handle, String> {
+    let name = service_name(env);
+    let k = 2 + variant as usize;
+    let e = |e: &dyn core::fmt::Debug| format!("{e:?}");
+    match (env.pattern, op) {
+        (Pattern::PubSub, "create") => node.service_builder(&name).publish_subscribe::<u64>().max_publishers(k).create().map(Handle::PubSub).map_err(|x| e(&x)),
+        (Pattern::PubSub, "open") => node.service_builder(&name).publish_subscribe::<u64>().open().map(Handle::PubSub).map_err(|x| e(&x)),
+        (Pattern::PubSub, "ooc") => node.service_builder(&name).publish_subscribe::<u64>().max_publishers(k).open_or_create().map(Handle::PubSub).map_err(|x| e(&x)),
+        (Pattern::Event, "create") => node.service_builder(&name).event().max_notifiers(k).create().map(Handle::Event).map_err(|x| e(&x)),
+        (Pattern::Event, "open") => node.service_builder(&name).event().open().map(Handle::Event).map_err(|x| e(&x)),
+        (Pattern::Event, "ooc") => node.service_builder(&name).event().max_notifiers(k).open_or_create().map(Handle::Event).map_err(|x| e(&x)),
+        (Pattern::ReqRes, "create") => node.service_builder(&name).request_response::<u64, u64>().max_clients(k).create().map(Handle::ReqRes).map_err(|x| e(&x)),
+        (Pattern::ReqRes, "open") => node.service_builder(&name).request_response::<u64, u64>().open().map(Handle::ReqRes).map_err(|x| e(&x)),
+        (Pattern::ReqRes, "ooc") => node.service_builder(&name).request_response::<u64, u64>().max_clients(k).open_or_create().map(Handle::ReqRes).map_err(|x| e(&x)),
+        (Pattern::Blackboard, "create") => node.service_builder(&name).blackboard_creator::<u64>().max_readers(k).add::<u64>(KEY, 0).create().map(Handle::Blackboard).map_err(|x| e(&x)),
+        (Pattern::Blackboard, "open") => node.service_builder(&name).blackboard_opener::<u64>().open().map(Handle::Blackboard).map_err(|x| e(&x)),
+        (p, o) => Err(format!("HARNESS: operation {o} is not defined for {p:?}")),
+    }
+}
+
+pub fn race_config(env: &Env) -> Config {
+    let mut c = config(env);
+    // a party that finds the other one stopped in the middle of a creation gives up quickly
+    c.global.creation_timeout = Duration::from_millis(40);
+    c
+}
+
+pub fn messaging_pattern(env: &Env) -> MessagingPattern {
+    match env.pattern {
+        Pattern::PubSub => MessagingPattern::PublishSubscribe,
+        Pattern::Event => MessagingPattern::Event,
+        Pattern::ReqRes => MessagingPattern::RequestResponse,
+        Pattern::Blackboard => MessagingPattern::Blackboard,
+    }
+}
+
+/// first party: node (not traced) | marker 77 | service op | result | marker 111 = holding |
+/// drop of the handle | marker 78 | node drop.   `op` = create | ooc
+pub fn race_first_main(env: &Env, op: &str) -> i32 {
+    use std::io::Write;
+    drop_privileges();
+    set_log_level(LogLevel::Fatal);
+    let mut cfg = race_config(env);
+    // the first party is the one that gets stopped by the tracer: time spent stopped must not
+    // count against its own retry budget (open_or_create gives up after the creation timeout)
+    cfg.global.creation_timeout = Duration::from_secs(20);
+    let node = match NodeBuilder::new().config(&cfg).create::<Svc>() {
+        Ok(n) => n,
+        Err(e) => {
+            println!("FIRST-RESULT harness-error node {e:?}");
+            return 3;
+        }
+    };
+    marker(77);
+    marker(101);
+    let r = service_op(&node, env, op, 0);
+    match &r {
+        Ok(h) => println!("FIRST-RESULT ok knob={}", knob(h)),
+        Err(e) => println!("FIRST-RESULT err {e}"),
+    }
+    let _ = std::io::stdout().flush();
+    marker(111);
+    marker(105);
+    drop(r);
+    marker(106);
+    marker(78);
+    drop(node);
+    0
+}
+
+/// second party, line protocol:
+///   OP <create|open|ooc>  -> `RESULT ok knob=<n>` | `RESULT err <text>`      (variant 1 settings)
+///   REPORT                -> `REPORT exists=<..> knob=<n|none> port=<ok|none|error text>`
+///   DROP                  -> `DROPPED exists=<..>`
+///   QUIT
+pub fn race_peer_main(env: &Env) -> i32 {
+    use std::io::{BufRead, Write};
+    drop_privileges();
+    set_log_level(LogLevel::Fatal);
+    let cfg = race_config(env);
+    let node = NodeBuilder::new().config(&cfg).create::<Svc>().expect("peer node");
+    let mut handle: Option<Handle> = None;
+    println!("READY");
+    std::io::stdout().flush().unwrap();
+    let stdin = std::io::stdin();
+    let mut line = String::new();
+    let exists = |cfg: &Config| match Svc::does_exist(&service_name(env), cfg, messaging_pattern(env)) {
+        Ok(b) => format!("{b}"),
+        Err(e) => format!("error:{e:?}"),
+    };
+    loop {
+        line.clear();
+        if stdin.lock().read_line(&mut line).unwrap_or(0) == 0 {
+            return 4;
+        }
+        let cmd = line.trim().to_string();
+        if let Some(op) = cmd.strip_prefix("OP ") {
+            match service_op(&node, env, op, 1) {
+                Ok(h) => {
+                    println!("RESULT ok knob={}", knob(&h));
+                    handle = Some(h);
+                }
+                Err(e) => println!("RESULT err {e}"),
+            }
+        } else if cmd == "REPORT" {
+            let (k, port) = match &handle {
+                Some(h) => (
+                    format!("{}", knob(h)),
+                    match create_port(h, Role::B) {
+                        Ok(p) => {
+                            drop(p);
+                            "ok".to_string()
+                        }
+                        Err(e) => e.replace(' ', "_"),
+                    },
+                ),
+                None => ("none".to_string(), "none".to_string()),
+            };
+            println!("REPORT exists={} knob={} port={}", exists(&cfg), k, port);
+        } else if cmd == "DROP" {
+            drop(handle.take());
+            println!("DROPPED exists={}", exists(&cfg));
+        } else if cmd == "QUIT" {
+            drop(handle.take());
+            drop(node);
+            return 0;
+        }
+        std::io::stdout().flush().unwrap();
+    }
+}
